@@ -26,6 +26,7 @@ var commands = map[string]func(args map[string]string){
 	"workers":   cmdWorkers,
 	"worker":    cmdWorker,
 	"waitcond":  cmdWaitCond,
+	"bulk":      cmdBulk,
 	"exclusive": cmdExclusive,
 	"pubsub":    cmdPubSub,
 	"caster":    cmdCaster,
